@@ -67,7 +67,7 @@ func (m *machine) global(g *ssa.Global) *value {
 	p := new(value)
 	*p = zero(g.Type().(*types.Pointer).Elem())
 	m.globals[g] = p
-	if m.preexist != nil {
+	if m.preexist != nil && g.Pkg != nil && m.eng.inModule(g.Pkg.Pkg.Path()) {
 		m.markCell(p) // a package-level variable materialised lazily is still pre-existing memory
 	}
 	return p
